@@ -20,12 +20,14 @@ def handle (op real : String) : Verdict := Id.run do
     let c := t.front
     let arg := (t.drop 1).toString
     let act : Option Act := match c with
-      | 'p' => arg.toNat?.map .prepare
-      | 'e' | 'b' => arg.toNat?.map .execute
+      -- (upper case: the same from a second client on another session; the prepared cache is the proxy's, not a session's)
+      | 'p' | 'P' => arg.toNat?.map .prepare
+      | 'e' | 'b' | 'E' | 'B' => arg.toNat?.map .execute
       | 'f' => arg.toNat?.map .forget
       | 'x' => match arg.splitOn ":" with
         | [h, "err"] => h.toNat?.map (.failNext · .err)
         | [h, "drop"] => h.toNat?.map (.failNext · .drop)
+        | [h, "hang"] => h.toNat?.map (.failNext · .drop)   -- never answered, then the node is removed: the connection is closed by the proxy
         | [h, "inv"] => h.toNat?.map (.failNext · .inv)
         | _ => none
       | 'a' => some .addHost
